@@ -71,7 +71,12 @@ def do_write(src, port, pl, b, libs, pre_existing):
         (parent / "other").mkdir()
         (parent / "other" / "x.txt").write_text("x")
         proj = parent / "proj"
-        if pre_existing:
+        if isinstance(pre_existing, list):
+            # the project directory was written before by an earlier write_project call (a related source,
+            # another port / library list): the property says "always writes", whatever is already there
+            _, src0, port0, libs0 = pre_existing
+            pio.write_project(proj, src0, port0, platform=pl, board=b, lib_deps=libs0)
+        elif pre_existing:
             (proj / "src").mkdir(parents=True)
             (proj / "src" / "main.cpp").write_text("old")
             (proj / "platformio.ini").write_text("[env:old]\nboard = old\n")
